@@ -29,7 +29,7 @@ var c19Kinds = []string{
 	"lexical: bad character", "lexical: unterminated comment", "lexical: unterminated action", "lexical: unterminated %union",
 	"lexical: unterminated %{", "lexical: bad character literal", "syntax: missing %%", "syntax: junk between rules",
 	"syntax: %prec without symbol", "semantic: undefined symbol", "semantic: %type'd nonterminal without rule", "semantic: unproductive nonterminal",
-	"action: $n beyond the rule's length", "action: $0", "success",
+	"action: $n beyond the rule's length", "action: $0", "action: $n beyond the rule's length, in the last rule, after a rule without action", "success",
 }
 
 func (c19) kindCases() int { return len(c19Kinds) * len(c19Variants) * 5 }
@@ -41,7 +41,7 @@ func (p c19) prefixCases(tier string) int {
 }
 func (p c19) NumCases(tier string) int { return p.kindCases() + p.prefixCases(tier) }
 func (c19) Rule() string {
-	return "case = (failure kind, option set, one of 3 base specifications, and base 0 twice more as a grammar file of 70-180 KiB: once with comment lines before the first %% and in the epilogue, once with a long epilogue only) with 14 input-caused failure kinds (bad character, unterminated comment / action / %union / %{, bad character literal, missing %%, junk between rules, %prec without symbol, undefined symbol, %type'd nonterminal without rule, unproductive nonterminal, $n beyond the rule's length, $0) plus a success kind, x {go, go -o, go -u, typescript}; the real CLI is run in its own process with the output path pre-existing (4 KB sentinel, fixed old mtime); when yaccgo reports failure (non-zero exit or panic) the file must have the same bytes, inode and mtime, and under strace -f no write-mode open, truncate, rename or unlink may name that path; when it reports success the file must contain a case label per rule and end with exactly the epilogue; prefix cases: 25 prefixes each of rendered specifications (most are failures, some are complete files) judged by the same rule; non-trivial = run in which yaccgo reported failure with the sentinel in place; distinct by (input text, option set)"
+	return "case = (failure kind, option set, one of 3 base specifications, and base 0 twice more as a grammar file of 70-180 KiB: once with comment lines before the first %% and in the epilogue, once with a long epilogue only) with 15 input-caused failure kinds (bad character, unterminated comment / action / %union / %{, bad character literal, missing %%, junk between rules, %prec without symbol, undefined symbol, %type'd nonterminal without rule, unproductive nonterminal, $n beyond the rule's length - in the first rule and in the last rule behind a rule without action -, $0) plus a success kind, x {go, go -o, go -u, typescript}; the real CLI is run in its own process with the output path pre-existing (4 KB sentinel, fixed old mtime); when yaccgo reports failure (non-zero exit or panic) the file must have the same bytes, inode and mtime, and under strace -f no write-mode open, truncate, rename or unlink may name that path; when it reports success the file must contain a case label per rule and end with exactly the epilogue; prefix cases: 25 prefixes each of rendered specifications (most are failures, some are complete files) judged by the same rule; non-trivial = run in which yaccgo reported failure with the sentinel in place; distinct by (input text, option set)"
 }
 func (c19) Assumptions() []string {
 	return []string{"output I/O failures (ENOSPC etc.) are outside the property's quantifier", "strace leg is skipped (and said so in the counters) if strace is unavailable"}
@@ -94,6 +94,11 @@ func breakText(kind string, g *spec.Grammar, text string) string {
 		return decl + rest[:firstRuleEnd] + " Loop " + rest[firstRuleEnd:firstRuleEnd+1] + "\nLoop : Loop " + g.Tokens[0].Src() + " ;\n" + rest[firstRuleEnd+1:]
 	case "action: $n beyond the rule's length":
 		return decl + rest[:firstRuleEnd] + " { $$ = $9 } " + rest[firstRuleEnd:]
+	case "action: $n beyond the rule's length, in the last rule, after a rule without action":
+		// two extra rules (unreachable, which is allowed) at the very end of the rule section
+		i3 := strings.LastIndex(text, "\n%%")
+		tok := g.Tokens[0].Src()
+		return text[:i3] + "\nVerifPlain : " + tok + " ;\nVerifLast : " + tok + " { $7 } ;" + text[i3:]
 	case "action: $0":
 		return decl + rest[:firstRuleEnd] + " { $$ = $0 } " + rest[firstRuleEnd:]
 	}
